@@ -1,6 +1,7 @@
 """C10 bad-smell thresholds: generators (decision layer on JSON nodes; rendered Java classes through
 the real listener) and the oracle written from the property's own numbers."""
 import itertools
+import json
 
 from . import javagen
 
@@ -247,6 +248,15 @@ def view(o):
         else:
             res[k] = g
     return {"sorted": res}
+
+
+def view_det(o):
+    """run-to-run comparison (C08): the promised order of the sized groups is kept, ties compared as sets"""
+    if not isinstance(o, dict) or "sorted" not in o:
+        return o
+    from . import core
+    return {"sorted": {k: (core.tie_groups(g, lambda f: f["Size"]) if k in SIZED else sorted(json.dumps(f, sort_keys=True) for f in g))
+                       for k, g in o["sorted"].items()}}
 
 
 def nontrivial(case, mo):
